@@ -106,3 +106,204 @@ package common
 //@   modifies self.off
 //@   ensures eof <==> old(remaining(self)) < 8
 //@   ensures !eof ==> self.off == old(self.off) + 8 && uint64(data) == le64(old(self.s), old(self.off))
+
+// ---- variable-length integers --------------------------------------------------------------
+//@ spec varlen(v uint64) uint64 = ite(v < 0xFD, 1, ite(v <= 0xFFFF, 3, ite(v <= 0xFFFFFFFF, 5, 9)))
+//@ spec isVarUintAt(b []byte, p uint64, v uint64) bool = ite(v < 0xFD, b[p] == uint8(v), ite(v <= 0xFFFF, b[p] == 0xFD && le16(b, p+1) == uint16(v), ite(v <= 0xFFFFFFFF, b[p] == 0xFE && le32(b, p+1) == uint32(v), b[p] == 0xFF && le64(b, p+1) == v)))
+//@ spec varsizeAt(b []byte, p uint64) uint64 = ite(b[p] < 0xFD, 1, ite(b[p] == 0xFD, 3, ite(b[p] == 0xFE, 5, 9)))
+//@ spec varuintAt(b []byte, p uint64) uint64 = ite(b[p] < 0xFD, uint64(b[p]), ite(b[p] == 0xFD, uint64(le16(b, p+1)), ite(b[p] == 0xFE, uint64(le32(b, p+1)), le64(b, p+1))))
+
+//@ lemma rt_u16(b []byte, p uint64, v uint16): property=C01 b[p] == uint8(v) && b[p+1] == uint8(v>>8) ==> le16(b, p) == v
+//@ lemma rt_u32(b []byte, p uint64, v uint32): property=C01 b[p] == uint8(v) && b[p+1] == uint8(v>>8) && b[p+2] == uint8(v>>16) && b[p+3] == uint8(v>>24) ==> le32(b, p) == v
+//@ lemma rt_u64(b []byte, p uint64, v uint64): property=C01 b[p] == uint8(v) && b[p+1] == uint8(v>>8) && b[p+2] == uint8(v>>16) && b[p+3] == uint8(v>>24) && b[p+4] == uint8(v>>32) && b[p+5] == uint8(v>>40) && b[p+6] == uint8(v>>48) && b[p+7] == uint8(v>>56) ==> le64(b, p) == v
+//@ lemma rt_varuint(b []byte, p uint64, v uint64): property=C01 isVarUintAt(b, p, v) ==> varuintAt(b, p) == v && varsizeAt(b, p) == varlen(v)
+//@ lemma varuint_canonical(b []byte, p uint64, c []byte, q uint64, v uint64): property=C01 isVarUintAt(b, p, v) && isVarUintAt(c, q, v) ==> forall i uint64 :: i < varlen(v) ==> b[p+i] == c[q+i]
+
+//@ func (*ZeroCopySource).NextVarUint
+//@   property C01
+//@   modifies self.off
+//@   ensures eof <==> (old(remaining(self)) == 0 || old(remaining(self)) < varsizeAt(old(self.s), old(self.off)))
+//@   ensures !eof ==> data == varuintAt(old(self.s), old(self.off)) && self.off == old(self.off) + varsizeAt(old(self.s), old(self.off))
+
+//@ func (*ZeroCopySource).NextVarBytes
+//@   property C01
+//@   modifies self.off
+//@   ensures eof <==> (old(remaining(self)) == 0 || old(remaining(self)) < varsizeAt(old(self.s), old(self.off)) || old(remaining(self)) - varsizeAt(old(self.s), old(self.off)) < varuintAt(old(self.s), old(self.off)))
+//@   ensures !eof ==> uint64(len(data)) == varuintAt(old(self.s), old(self.off)) && self.off == old(self.off) + varsizeAt(old(self.s), old(self.off)) + uint64(len(data))
+//@   ensures !eof ==> ref(data) == ref(self.s) && off(data) == off(self.s) + old(self.off) + varsizeAt(old(self.s), old(self.off))
+
+//@ func (*ZeroCopySource).NextAddress
+//@   property C01
+//@   modifies self.off
+//@   ensures eof <==> old(remaining(self)) < 20
+//@   ensures !eof ==> self.off == old(self.off) + 20 && data == packbytes(old(self.s), old(self.off), 20)
+
+//@ func (*ZeroCopySource).NextHash
+//@   property C01
+//@   modifies self.off
+//@   ensures eof <==> old(remaining(self)) < 32
+//@   ensures !eof ==> self.off == old(self.off) + 32 && data == packbytes(old(self.s), old(self.off), 32)
+
+//@ func (*ZeroCopySource).BackUp
+//@   property C01
+//@   requires n <= self.off
+//@   modifies self.off
+//@   ensures self.off == old(self.off) - n
+
+// ---- sink ----------------------------------------------------------------------------------
+//@ func makeSlice
+//@   trusted   -- defer/recover around make is outside the verified subset; contract assumed
+//@   requires n >= 0 && n <= 0x30000000000
+//@   ensures len(result) == n && cap(result) == n
+//@   ensures forall i uint64 :: i < uint64(n) ==> result[i] == 0
+//@   fresh result
+
+//@ func (*ZeroCopySink).tryGrowByReslice
+//@   property C01
+//@   requires n >= 0 && n <= 0xffffffffff
+//@   modifies self.buf
+//@   ensures r1 <==> n <= cap(old(self.buf)) - len(old(self.buf))
+//@   ensures r1 ==> r0 == len(old(self.buf)) && len(self.buf) == len(old(self.buf)) + n
+//@   ensures !r1 ==> r0 == 0 && len(self.buf) == len(old(self.buf))
+//@   ensures ref(self.buf) == ref(old(self.buf)) && off(self.buf) == off(old(self.buf)) && cap(self.buf) == cap(old(self.buf))
+
+//@ func (*ZeroCopySink).grow
+//@   property C01
+//@   requires n >= 0 && n <= 0xffffffffff
+//@   modifies self.buf
+//@   ensures result == len(old(self.buf)) && len(self.buf) == len(old(self.buf)) + n
+//@   ensures ref(self.buf) == old(ref(self.buf)) || fresh(ref(self.buf))
+//@   ensures forall i uint64 :: i < uint64(len(old(self.buf))) ==> self.buf[i] == old(self.buf[i])
+
+//@ func (*ZeroCopySink).NextBytes
+//@   property C01
+//@   requires n <= 0xffffffffff
+//@   modifies self.buf
+//@   ensures ref(self.buf) == old(ref(self.buf)) || fresh(ref(self.buf))
+//@   ensures uint64(len(self.buf)) == uint64(len(old(self.buf))) + n
+//@   ensures forall i uint64 :: i < uint64(len(old(self.buf))) ==> self.buf[i] == old(self.buf[i])
+//@   ensures ref(data) == ref(self.buf) && off(data) == off(self.buf) + uint64(len(old(self.buf))) && uint64(len(data)) == n && cap(data) == cap(self.buf) - len(old(self.buf))
+
+//@ func (*ZeroCopySink).Size
+//@   property C01
+//@   ensures result == uint64(len(self.buf))
+
+//@ func (*ZeroCopySink).BackUp
+//@   property C01
+//@   requires n <= uint64(len(self.buf))
+//@   modifies self.buf
+//@   ensures uint64(len(self.buf)) == uint64(len(old(self.buf))) - n
+//@   ensures ref(self.buf) == ref(old(self.buf)) && off(self.buf) == off(old(self.buf)) && cap(self.buf) == cap(old(self.buf))
+
+//@ func (*ZeroCopySink).WriteBytes
+//@   property C01
+//@   modifies self.buf, elems(self.buf)
+//@   ensures ref(self.buf) == old(ref(self.buf)) || fresh(ref(self.buf))
+//@   ensures len(self.buf) == len(old(self.buf)) + len(p)
+//@   ensures forall i uint64 :: i < uint64(len(old(self.buf))) ==> self.buf[i] == old(self.buf[i])
+//@   ensures forall i uint64 :: i < uint64(len(p)) ==> self.buf[uint64(len(old(self.buf)))+i] == old(p[i])
+
+//@ func (*ZeroCopySink).WriteUint8
+//@   property C01
+//@   modifies self.buf, elems(self.buf)
+//@   ensures ref(self.buf) == old(ref(self.buf)) || fresh(ref(self.buf))
+//@   ensures len(self.buf) == len(old(self.buf)) + 1
+//@   ensures forall i uint64 :: i < uint64(len(old(self.buf))) ==> self.buf[i] == old(self.buf[i])
+//@   ensures self.buf[len(old(self.buf))] == data
+
+//@ func (*ZeroCopySink).WriteByte
+//@   property C01
+//@   modifies self.buf, elems(self.buf)
+//@   ensures ref(self.buf) == old(ref(self.buf)) || fresh(ref(self.buf))
+//@   ensures len(self.buf) == len(old(self.buf)) + 1
+//@   ensures forall i uint64 :: i < uint64(len(old(self.buf))) ==> self.buf[i] == old(self.buf[i])
+//@   ensures self.buf[len(old(self.buf))] == c
+
+//@ func (*ZeroCopySink).WriteBool
+//@   property C01
+//@   modifies self.buf, elems(self.buf)
+//@   ensures ref(self.buf) == old(ref(self.buf)) || fresh(ref(self.buf))
+//@   ensures len(self.buf) == len(old(self.buf)) + 1
+//@   ensures forall i uint64 :: i < uint64(len(old(self.buf))) ==> self.buf[i] == old(self.buf[i])
+//@   ensures self.buf[len(old(self.buf))] == ite(data, uint8(1), uint8(0))
+
+//@ func (*ZeroCopySink).WriteUint16
+//@   property C01
+//@   modifies self.buf, elems(self.buf)
+//@   ensures ref(self.buf) == old(ref(self.buf)) || fresh(ref(self.buf))
+//@   ensures len(self.buf) == len(old(self.buf)) + 2
+//@   ensures forall i uint64 :: i < uint64(len(old(self.buf))) ==> self.buf[i] == old(self.buf[i])
+//@   ensures self.buf[len(old(self.buf))] == uint8(data) && self.buf[len(old(self.buf))+1] == uint8(data>>8)
+
+//@ func (*ZeroCopySink).WriteUint32
+//@   property C01
+//@   modifies self.buf, elems(self.buf)
+//@   ensures ref(self.buf) == old(ref(self.buf)) || fresh(ref(self.buf))
+//@   ensures len(self.buf) == len(old(self.buf)) + 4
+//@   ensures forall i uint64 :: i < uint64(len(old(self.buf))) ==> self.buf[i] == old(self.buf[i])
+//@   ensures le32(self.buf, uint64(len(old(self.buf)))) == data
+
+//@ func (*ZeroCopySink).WriteUint64
+//@   property C01
+//@   modifies self.buf, elems(self.buf)
+//@   ensures ref(self.buf) == old(ref(self.buf)) || fresh(ref(self.buf))
+//@   ensures len(self.buf) == len(old(self.buf)) + 8
+//@   ensures forall i uint64 :: i < uint64(len(old(self.buf))) ==> self.buf[i] == old(self.buf[i])
+//@   ensures le64(self.buf, uint64(len(old(self.buf)))) == data
+
+//@ func (*ZeroCopySink).WriteInt16
+//@   property C01
+//@   modifies self.buf, elems(self.buf)
+//@   ensures ref(self.buf) == old(ref(self.buf)) || fresh(ref(self.buf))
+//@   ensures len(self.buf) == len(old(self.buf)) + 2
+//@   ensures forall i uint64 :: i < uint64(len(old(self.buf))) ==> self.buf[i] == old(self.buf[i])
+//@   ensures le16(self.buf, uint64(len(old(self.buf)))) == uint16(data)
+
+//@ func (*ZeroCopySink).WriteInt32
+//@   property C01
+//@   modifies self.buf, elems(self.buf)
+//@   ensures ref(self.buf) == old(ref(self.buf)) || fresh(ref(self.buf))
+//@   ensures len(self.buf) == len(old(self.buf)) + 4
+//@   ensures forall i uint64 :: i < uint64(len(old(self.buf))) ==> self.buf[i] == old(self.buf[i])
+//@   ensures le32(self.buf, uint64(len(old(self.buf)))) == uint32(data)
+
+//@ func (*ZeroCopySink).WriteInt64
+//@   property C01
+//@   modifies self.buf, elems(self.buf)
+//@   ensures ref(self.buf) == old(ref(self.buf)) || fresh(ref(self.buf))
+//@   ensures len(self.buf) == len(old(self.buf)) + 8
+//@   ensures forall i uint64 :: i < uint64(len(old(self.buf))) ==> self.buf[i] == old(self.buf[i])
+//@   ensures le64(self.buf, uint64(len(old(self.buf)))) == uint64(data)
+
+//@ func (*ZeroCopySink).WriteVarUint
+//@   property C01
+//@   modifies self.buf, elems(self.buf)
+//@   ensures ref(self.buf) == old(ref(self.buf)) || fresh(ref(self.buf))
+//@   ensures size == varlen(data) && uint64(len(self.buf)) == uint64(len(old(self.buf))) + size
+//@   ensures forall i uint64 :: i < uint64(len(old(self.buf))) ==> self.buf[i] == old(self.buf[i])
+//@   ensures isVarUintAt(self.buf, uint64(len(old(self.buf))), data)
+
+//@ func (*ZeroCopySink).WriteVarBytes
+//@   property C01
+//@   modifies self.buf, elems(self.buf)
+//@   ensures ref(self.buf) == old(ref(self.buf)) || fresh(ref(self.buf))
+//@   ensures size == varlen(uint64(len(data))) + uint64(len(data)) && uint64(len(self.buf)) == uint64(len(old(self.buf))) + size
+//@   ensures forall i uint64 :: i < uint64(len(old(self.buf))) ==> self.buf[i] == old(self.buf[i])
+//@   ensures isVarUintAt(self.buf, uint64(len(old(self.buf))), uint64(len(data)))
+//@   ensures ref(data) != old(ref(self.buf)) ==> forall i uint64 :: i < uint64(len(data)) ==> self.buf[uint64(len(old(self.buf)))+varlen(uint64(len(data)))+i] == old(data[i])
+
+//@ func (*ZeroCopySink).WriteAddress
+//@   property C01
+//@   modifies self.buf, elems(self.buf)
+//@   ensures ref(self.buf) == old(ref(self.buf)) || fresh(ref(self.buf))
+//@   ensures len(self.buf) == len(old(self.buf)) + 20
+//@   ensures forall i uint64 :: i < uint64(len(old(self.buf))) ==> self.buf[i] == old(self.buf[i])
+//@   ensures packbytes(self.buf, uint64(len(old(self.buf))), 20) == addr
+
+//@ func (*ZeroCopySink).WriteHash
+//@   property C01
+//@   modifies self.buf, elems(self.buf)
+//@   ensures ref(self.buf) == old(ref(self.buf)) || fresh(ref(self.buf))
+//@   ensures len(self.buf) == len(old(self.buf)) + 32
+//@   ensures forall i uint64 :: i < uint64(len(old(self.buf))) ==> self.buf[i] == old(self.buf[i])
+//@   ensures packbytes(self.buf, uint64(len(old(self.buf))), 32) == hash
